@@ -41,8 +41,40 @@ def user_fn(args, scale=None, opts=None):
     return _CoreArray(acc), _CoreArray(op.neg(acc))
 
 
+@eager_propagate
+def user_fn2(acc, step):
+    """A user function over Arrays: updates its first argument in place (not idempotent) and returns three outputs —
+    computed by library functions only, through a directly applied operator, and from both."""
+    acc += step
+    lib = ndx.sum(acc, axis=0, keepdims=True) if acc.ndim else acc + 0
+    direct = ndx.from_spox_var(op.neg(acc.spox_var()))
+    return lib, direct, acc * 2
+
+
 def handle(case):
     k = case["kind"]
+    if k == "propagate2":
+        def go():
+            vals = {n: nd.dec_array(t) for n, t in case["values"].items()}
+            res = {}
+            for lazy_set in case["lazy_sets"]:
+                ins = {n: ndx.array(shape=tuple(case["values"][n]["shape"]), dtype=nd.dt(case["values"][n]["dtype"])) for n in lazy_set}
+                arrs = {n: (ins[n].copy() if n in lazy_set else ndx.asarray(vals[n].copy())) for n in ("acc", "step")}
+                outs = user_fn2(arrs["acc"], arrs["step"])
+                r = {"values": [None if o.to_numpy() is None else nd.enc_array(o.to_numpy()) for o in outs],
+                     "acc_after": None if arrs["acc"].to_numpy() is None else nd.enc_array(arrs["acc"].to_numpy())}
+                named = {"o0": outs[0], "o1": outs[1], "o2": outs[2], "acc_out": arrs["acc"]}
+                model = ndx.build(ins, named)
+                feeds = {}
+                for n in lazy_set:
+                    feeds.update(nd.feeds_for(n, case["values"][n]))
+                got = nd.run_model(model, feeds, named)
+                r["model"] = [nd.enc_array(got[k_]) for k_ in ("o0", "o1", "o2", "acc_out")]
+                res[",".join(sorted(lazy_set)) or "-"] = r
+            a2 = vals["acc"] + vals["step"]
+            res["oracle"] = [nd.enc_array(np.sum(a2, axis=0, keepdims=True) if a2.ndim else a2 + 0), nd.enc_array(-a2), nd.enc_array(a2 * 2), nd.enc_array(a2)]
+            return {"ok": res}
+        return _guard(go)
     if k == "spox":
         def go():
             x_np = nd.dec_array(case["x"])
